@@ -108,3 +108,19 @@ func hexDec(s string) string {
 	}
 	return b.String()
 }
+
+// desiredSet computes the first r non-negative integers that are not slots, independently of the code under test
+// (used by generators and by harness-side classification only).
+func desiredSet(r int, slots []int) map[int]bool {
+	isSlot := map[int]bool{}
+	for _, s := range slots {
+		isSlot[s] = true
+	}
+	d := map[int]bool{}
+	for n := 0; len(d) < r; n++ {
+		if !isSlot[n] {
+			d[n] = true
+		}
+	}
+	return d
+}
